@@ -244,6 +244,8 @@ type OpDesc struct {
 	Faults  []Fault `json:"faults"`
 	Ticks   int64   `json:"ticks"`
 	Sidecar string  `json:"sidecar"`
+	// ClockSkewHours shifts simrt.Now, the replacement of time.Now.
+	ClockSkewHours int `json:"clock_skew_hours"`
 }
 type MapCfg struct {
 	Mode string `json:"mode"`
@@ -305,6 +307,18 @@ func (t *Tree) Generate(inv Invocation, tag string) (*GenResult, error) {
 		return nil, Infra("unknown cwd mode %q", inv.CwdMode)
 	}
 	env := append(GoEnv(), "GOMAXPROCS=2")
+	// The time zone is part of the environment a generation runs in: owned by
+	// the simulator, derived from the directory and the map seed.
+	zones := []string{"UTC", "Pacific/Kiritimati", "Etc/GMT+12", "Asia/Kolkata"}
+	zh := uint64(len(inv.Dir))
+	if inv.Op != nil {
+		zh += inv.Op.Map.Seed
+		inv.Op.ClockSkewHours = int(inv.Op.Map.Seed%61)*24 + int(inv.Op.Map.Seed%7)
+	}
+	for i := 0; i < len(inv.CwdMode); i++ {
+		zh = zh*31 + uint64(inv.CwdMode[i])
+	}
+	env = append(env, "TZ="+zones[zh%uint64(len(zones))])
 	sidePath := ""
 	if inv.Op != nil {
 		os.MkdirAll(filepath.Join(t.Base, "side"), 0o755)
